@@ -335,6 +335,12 @@ class RegexVM:
                     if start <= ch_code <= end:
                         matched = True
                         break
+                    # Ignore case: a class member in either case excludes ch
+                    # (only a one-character upper-case form is a candidate)
+                    upper = ch.upper() if self.ignorecase else ch
+                    if len(upper) == 1 and start <= ord(upper) <= end:
+                        matched = True
+                        break
 
                 if not matched:
                     sp += 1
